@@ -101,6 +101,12 @@ def vIn (needle hay : V) : Res Bool :=
   | .str _ => if needle.px then .error .raised else pyIn needle.v hay.v
   | _ => pyIn needle.v hay.v
 
+/-- `str(x)` as a list of code points: a `str` is itself, anything else goes through the abstract `strOf`. -/
+def strOfV (c : Ctx) (x : V) : List Nat :=
+  match x.v with
+  | .str s => s
+  | v => c.strOf v
+
 def deltaOf : PyVal → Res (Option (Int × Nat))
   | .none => .ok none
   | .flt m k => .ok (some (m, k))
@@ -177,10 +183,7 @@ def eval (c : Ctx) : CondExpr → Res V
   | .str_ a =>
     match eval c a with
     | .error e => .error e
-    | .ok x =>
-      match x.v with
-      | .str s => .ok (V.fresh (.str s))
-      | v => .ok (V.fresh (.str (c.strOf v)))
+    | .ok x => .ok (V.fresh (.str (strOfV c x)))
   | .lower a =>
     match eval c a with
     | .error e => .error e
